@@ -308,6 +308,14 @@ class Facts:
     def __init__(self, config="default", key=None):
         self.config = config
         self.raw = _facts.load_raw(config, key)
+        self.expect = None
+        if _facts.CONFIGS[_facts.base_config(config)]["kind"] == "fixture":
+            import json as _json
+            import os as _os
+            ep = _os.path.join(_facts.fixture_dir(config, key), "gen", "expect.json")
+            if _os.path.exists(ep):
+                with open(ep) as fh:
+                    self.expect = _json.load(fh)
         self.bodies = {}
         self.body_list = []
         self.by_root = defaultdict(list)
